@@ -49,6 +49,37 @@ FORBIDDEN = re.compile(
     r'Unset\s+Universe\s+Checking)\b')
 
 
+class Hang(Exception):
+    """The implementation did not return within the per-call time limit."""
+
+
+class time_limit:
+    """`with time_limit(10): impl_call()` raises Hang when the call does not return in time
+    (main thread of the process only; based on ITIMER_REAL, so it interrupts pure-Python loops)."""
+
+    def __init__(self, seconds):
+        self.seconds = seconds
+
+    def _fire(self, signum, frame):
+        raise Hang('no result after %s s' % self.seconds)
+
+    def __enter__(self):
+        import signal
+        import threading
+        self.active = threading.current_thread() is threading.main_thread()
+        if self.active:
+            self.old = signal.signal(signal.SIGALRM, self._fire)
+            signal.setitimer(signal.ITIMER_REAL, self.seconds)
+        return self
+
+    def __exit__(self, *a):
+        if self.active:
+            import signal
+            signal.setitimer(signal.ITIMER_REAL, 0)
+            signal.signal(signal.SIGALRM, self.old)
+        return False
+
+
 def sh(cmd, timeout=None, cwd=None, env=None, input=None):
     p = subprocess.run(cmd, shell=isinstance(cmd, str), cwd=cwd, env=env, input=input,
                        stdout=subprocess.PIPE, stderr=subprocess.STDOUT, timeout=timeout, text=True)
